@@ -2,24 +2,24 @@
 # usage: seedcheck.sh <PROP> <src-dir> <demo-pkg-dir> [vcheck args...]
 #   src-dir holds patch.diff, demo_test.go, README.md from a sub-agent.
 # 1. confirms in a scratch worktree: patch applies, builds, baseline tests pass, the demo fails
-#    with the patch and passes without it;  2. applies the patch to /repo, runs the property's
-#    check, reverts;  3. prints a one-line summary.
+#    with the patch and passes without it;  2. runs the property's check against that worktree;  3. prints a one-line summary.
 set -u
 P=$1; SRC=$2; PKG=$3; shift 3
 export GOFLAGS=-mod=mod GOPROXY=off GOSUMDB=off
 W=/tmp/seedchk-$$
 git -C /repo worktree add -q --detach $W HEAD || exit 2
-cleanup() { git -C /repo worktree remove --force $W >/dev/null 2>&1; rm -rf $W; }
+cleanup() { git -C /repo worktree remove --force $W >/dev/null 2>&1; rm -rf $W $W.*.log; }
 trap cleanup EXIT
 cd $W
 DEMO=$(ls $SRC/*_test.go 2>/dev/null | head -1)
 cp $DEMO $W/$PKG/zz_demo_test.go
-go test -vet=off -count=1 -run 'Demo|Relay|Test' ./$PKG/ >/tmp/seedchk-clean.log 2>&1; CLEAN=$?
+go test -vet=off -count=1 -run 'Demo|Relay|Test' ./$PKG/ >$W.clean.log 2>&1; CLEAN=$?
 git apply $SRC/patch.diff || { echo "SEED $P $SRC: patch does not apply"; exit 2; }
-go build ./cmd/rdpgw/... ./cmd/auth/ntlm/... ./cmd/auth/database/... ./cmd/auth/config/... ./shared/... >/tmp/seedchk-build.log 2>&1; BUILD=$?
-go test -vet=off -count=1 ./$PKG/ >/tmp/seedchk-mut.log 2>&1; MUT=$?
+go build ./cmd/rdpgw/... ./cmd/auth/ntlm/... ./cmd/auth/database/... ./cmd/auth/config/... ./shared/... >$W.build.log 2>&1; BUILD=$?
+go test -vet=off -count=1 ./$PKG/ >$W.mut.log 2>&1; MUT=$?
 rm -f $W/$PKG/zz_demo_test.go
-go test -vet=off -count=1 ./cmd/rdpgw/... ./cmd/auth/ntlm/... ./cmd/auth/database/... ./shared/... >/tmp/seedchk-base.log 2>&1; BASE=$?
+go test -vet=off -count=1 ./cmd/rdpgw/... ./cmd/auth/ntlm/... ./cmd/auth/database/... ./shared/... >$W.base.log 2>&1; BASE=$?
 echo "SEED $P $(basename $SRC): demo-on-clean-exit=$CLEAN build=$BUILD demo-with-patch-exit=$MUT baseline-with-patch-exit=$BASE"
-cd /repo && git apply $SRC/patch.diff && { timeout 1800 /verif/bin/vcheck -property $P -noevidence "$@" 2>&1 | grep -E "^VIOLATION|class=|violations=|INFRA|KNOWN" | cut -c1-300 | head -8; }
-git -C /repo checkout -- . ; git -C /repo status --short | head -3
+# the check runs against the scratch worktree (VERIF_REPO), so /repo itself is never touched and
+# several seeded changes can be checked side by side
+cd /verif && { VERIF_REPO=$W timeout 1800 /verif/bin/vcheck -property $P -noevidence "$@" 2>&1 | grep -E "^VIOLATION|class=|violations=|INFRA|KNOWN" | cut -c1-300 | head -8; }
